@@ -47,6 +47,7 @@ def opOf (o : Json) : Except String Op := do
   | "rename" => return .rename (← getStr o "old") (← getStr o "new")
   | "join" => return .join (← Driver.C13.howOf (← getStr o "how")) (← strList o "on") (← dfOf (← o.getObjVal? "other"))
   | "crossJoin" => return .crossJoin (← dfOf (← o.getObjVal? "other"))
+  | "joinOn" => return .joinOn (← Driver.C13.howOf (← getStr o "how")) (← exprOf (← o.getObjVal? "cond")) (← dfOf (← o.getObjVal? "other"))
   | "union" => return .union (← dfOf (← o.getObjVal? "other"))
   | "agg" => return .agg (← modeOf (← getStr o "mode")) (← strList o "keys") (← aggsOf o)
   | "pivot" =>
